@@ -18,6 +18,15 @@
       before plus the ids inserted by the operation — nothing is lost, EVEN when the panic came out
       of a `Drop` (the model proves more than the property asks for);
   `drop_owner` closes the argument: dropping a well-formed owner drops exactly its contents.
+
+  Algorithms covered here: `retain`, `dedup_by`, `truncate`, `clear`, `pop`, `pop_if`, `remove`, `swap_remove`,
+  `push`, `insert`, `extend_from_slice_clone`, `resize` (`extend_with`), `resize_with` (`extend_trusted`),
+  `append`, `drain` (+ `keep_rest`), `extract_if`, `into_iter`, `map_in_place`; `MutBumpVecRev`: `push`, `pop`,
+  `clear`, `truncate`, `insert`, `remove`, `swap_remove`, `extend_from_slice_clone`, `resize`, `append`,
+  `into_iter`, drop (`partition` is in `Props/C16.lean`).  Each theorem rests on a refinement lemma
+  `Lemmas/Coll*.lean : op v = .ok ⟨v.after (opSpec …), …⟩` (cursor/guard model = list-level description).
+  Not modelled (checked on the real types by the harness oracle only): `splice`, `dedup_by_key`,
+  `extend_from_within_clone`, `BumpVec::map`, `into_flattened`, zero-sized element types.
 -/
 import BumpProof.Coll.Spec
 import BumpProof.Lemmas.CollWF
